@@ -23,8 +23,10 @@ def set (h : HdrMap) (k : Bytes) (v : Bytes) : HdrMap := assign h k [v]
 /-- `h.Add(k, v)` for a canonical `k`: append to whatever is there. -/
 def add (h : HdrMap) (k : Bytes) (v : Bytes) : HdrMap := assign h k ((h k).getD [] ++ [v])
 
-/-- `maps.Copy(h, buf)` for a buffer with distinct keys. -/
-def copy (h : HdrMap) (buf : List (Bytes × List Bytes)) : HdrMap := buf.foldl (fun h kv => assign h kv.1 kv.2) h
+/-- `maps.Copy(h, buf)`: every key of `buf` overwrites the key of `h`. -/
+def copy (h : HdrMap) (buf : HdrMap) : HdrMap := fun k => match buf k with
+  | some v => some v
+  | none => h k
 
 /-- `headers.First`. -/
 def first (h : HdrMap) (k : Bytes) : Option Bytes :=
@@ -58,12 +60,17 @@ structure Dec where
 namespace Serve
 
 def OPTIONS : Bytes := [79, 80, 84, 73, 79, 78, 83]
-def forbidden : Nat := 403
+/-- The status of failed preflights: the unique constant passed to `WriteHeader` in `handleCORSPreflight`
+(regenerated fact; `0` if the source no longer has exactly one). -/
+def forbidden : Nat := match Facts.cors_preflightFailStatuses with
+  | [s] => s
+  | _ => 0
 
-abbrev Buf := List (Bytes × List Bytes)
+/-- The local accumulation map `buf := make(http.Header, bufSizeHint)`. -/
+abbrev Buf := HdrMap
 
-/-- `buf[k] = v` on the local accumulation map. -/
-def Buf.put (b : Buf) (k : Bytes) (v : List Bytes) : Buf := b.filter (fun kv => kv.1 != k) ++ [(k, v)]
+/-- `buf[k] = v`. -/
+abbrev Buf.put (b : Buf) (k : Bytes) (v : List Bytes) : Buf := HdrMap.assign b k v
 
 /-- `handleNonCORS`. -/
 def handleNonCORS (icfg : ICfg) (h : HdrMap) (isOPTIONS : Bool) : HdrMap :=
@@ -118,34 +125,48 @@ def processACRH (dec : Dec) (icfg : ICfg) (buf : Buf) (reqHdrs : HdrMap) (debug 
 
 def okStatus (icfg : ICfg) : Nat := icfg.statusMinus200 + 200
 
+/-- The Vary step of `handleCORSPreflight`: install the singleton when the key is absent (fast
+path), otherwise append to whatever is there (slow path). -/
+def preflightVary (h : HdrMap) : HdrMap :=
+  match h Facts.headers_Vary with
+  | none => h.assign Facts.headers_Vary Facts.headers_PreflightVarySgl
+  | some vary => h.assign Facts.headers_Vary (vary ++ [Facts.headers_ValueVaryOptions])
+
+/-- Outcome of the four steps of the preflight pipeline, with the buffer accumulated so far. -/
+inductive Steps
+  | originFail (buf : Buf)
+  | laterFail (buf : Buf)
+  | ok (buf : Buf)
+
+/-- The four steps in Fetch order: origin, ACRPN, ACRM, ACRH.  (The three "later" failures are
+handled by textually identical code in Go.) -/
+def preflightSteps (dec : Dec) (icfg : ICfg) (reqHdrs : HdrMap) (origin acrm : Bytes) (debug : Bool) : Steps :=
+  match processOriginForPreflight dec icfg HdrMap.empty origin with
+  | none => .originFail HdrMap.empty
+  | some buf =>
+    match processACRPN icfg buf reqHdrs with
+    | none => .laterFail buf
+    | some buf =>
+      match processACRM icfg buf acrm with
+      | none => .laterFail buf
+      | some buf =>
+        match processACRH dec icfg buf reqHdrs debug with
+        | none => .laterFail buf
+        | some buf => .ok buf
+
 /-- `handleCORSPreflight`. -/
 def handleCORSPreflight (dec : Dec) (icfg : ICfg) (h : HdrMap) (reqHdrs : HdrMap)
     (origin acrm : Bytes) (debug : Bool) : Resp :=
-  let h := match h Facts.headers_Vary with
-    | none => h.assign Facts.headers_Vary Facts.headers_PreflightVarySgl
-    | some vary => h.assign Facts.headers_Vary (vary ++ [Facts.headers_ValueVaryOptions])
-  let buf : Buf := []
-  match processOriginForPreflight dec icfg buf origin with
-  | none => { hdrs := if debug then h.copy buf else h, status := some forbidden, next := false }
-  | some buf =>
-    match processACRPN icfg buf reqHdrs with
-    | none =>
-      if debug then { hdrs := h.copy buf, status := some (okStatus icfg), next := false }
-      else { hdrs := h, status := some forbidden, next := false }
-    | some buf =>
-      match processACRM icfg buf acrm with
-      | none =>
-        if debug then { hdrs := h.copy buf, status := some (okStatus icfg), next := false }
-        else { hdrs := h, status := some forbidden, next := false }
-      | some buf =>
-        match processACRH dec icfg buf reqHdrs debug with
-        | none =>
-          if debug then { hdrs := h.copy buf, status := some (okStatus icfg), next := false }
-          else { hdrs := h, status := some forbidden, next := false }
-        | some buf =>
-          let h := h.copy buf
-          let h := if !icfg.acma.isEmpty then h.assign Facts.headers_ACMA icfg.acma else h
-          { hdrs := h, status := some (okStatus icfg), next := false }
+  let h := preflightVary h
+  match preflightSteps dec icfg reqHdrs origin acrm debug with
+  | .originFail buf => { hdrs := if debug then h.copy buf else h, status := some forbidden, next := false }
+  | .laterFail buf =>
+    if debug then { hdrs := h.copy buf, status := some (okStatus icfg), next := false }
+    else { hdrs := h, status := some forbidden, next := false }
+  | .ok buf =>
+    let h := h.copy buf
+    let h := if !icfg.acma.isEmpty then h.assign Facts.headers_ACMA icfg.acma else h
+    { hdrs := h, status := some (okStatus icfg), next := false }
 
 /-- `handleCORSActual`. -/
 def handleCORSActual (dec : Dec) (icfg : ICfg) (h : HdrMap) (origin : Bytes) (isOPTIONS : Bool) : HdrMap :=
